@@ -10,6 +10,12 @@
 (* known yet).  An operator may repeat, as the first sample of a batch,    *)
 (* the last sample of its previous batch.                                  *)
 (*                                                                         *)
+(* Part 1 below: once[a,b] / historically[a,b]; Part 2: the merge of two   *)
+(* streams (intersection.py) and the binary operators built on it, the     *)
+(* predicate (with the interface-aware variants); Part 3: stateless maps,   *)
+(* untimed once / historically / since, since[a,b]; Part 4: one update()   *)
+(* of a whole specification (UpdateCM) and the contract of property C05.   *)
+(*                                                                         *)
 (* Part 1: once[a,b] / historically[a,b]  (once_timed_operation.py,        *)
 (* historically_timed_operation.py), transcribed statement by statement.   *)
 (* The memory of the operator is                                           *)
@@ -22,6 +28,8 @@
 (*   "dropPending"  F-05a  the pending triple that starts exactly at rs is *)
 (*                         emitted but not carried over (rs > b0, not >=)  *)
 (*   "noDedupe"     F-05a  a repeated first sample is consumed again       *)
+(*   "constEveryUpdate" F-05b  a constant re-emits [[0,c],[inf,c]] at      *)
+(*                         every update                                    *)
 (***************************************************************************)
 EXTENDS Dense
 
